@@ -14,19 +14,22 @@ VARIABLES tid, l
 tvars == <<vars, tid, l>>
 Tr == Batch[tid]
 E  == Tr[l]
-LruOf(q) == [i \in 1 .. Len(q) |-> [proj |-> q[i][1], ver |-> q[i][2], mtime |-> q[i][2]]]
+\* logged per cached project: name, recorded stamp of the project file, recorded stamp of the base file (0: not included)
+LruTimes(q) == [i \in 1 .. Len(q) |-> <<q[i][1], q[i][2], q[i][3]>>]
+TimesOf(q) == [i \in 1 .. Len(q) |-> <<q[i].proj, q[i].mtime, q[i].bmtime>>]
 
 TraceInit == Init /\ tid \in 1 .. NTraces /\ l = 1
 
 Ev ==
-  \/ E.op = "request" /\ Request(E.p) /\ last'.status = E.status /\ last'.ver = E.ver
-  \/ E.op = "write" /\ WriteConf(E.p)
+  \/ E.op = "request" /\ Request(E.p) /\ last'.status = E.status /\ last'.ver = E.ver /\ last'.bver = E.bver
+  \/ E.op = "write" /\ WriteConf(E.p, E.m)
+  \/ E.op = "writebase" /\ WriteBase(E.m)
   \/ E.op = "remove" /\ RemoveConf(E.p)
 
 TraceNext ==
   /\ l <= Len(Tr)
   /\ Ev
-  /\ lru' = LruOf(E.lru)
+  /\ TimesOf(lru') = LruTimes(E.lru)
   /\ l' = l + 1 /\ tid' = tid
   /\ TLCSet(2, [TLCGet(2) EXCEPT ![tid] = IF @ > l THEN @ ELSE l])
   /\ (l = Len(Tr)) => TLCSet(1, TLCGet(1) \cup {tid})
